@@ -96,9 +96,15 @@ func Run(argv []string, input [][]byte, rows, cols int, timeout time.Duration, e
 		cmd.Process.Kill()
 		<-waitDone
 	}
+	// The reader ends with EIO once the child side of the terminal is closed,
+	// after everything the child wrote has been delivered. Never look at the
+	// buffer before the reader is done (that would lose output on a busy
+	// machine); as a last resort close the master side to unblock it.
 	select {
 	case <-readDone:
-	case <-time.After(200 * time.Millisecond):
+	case <-time.After(20 * time.Second):
+		ptmx.Close()
+		<-readDone
 	}
 	res.Stdout, res.Stderr = out.Bytes(), stderr.Bytes()
 	if st, ok := cmd.ProcessState.Sys().(syscall.WaitStatus); ok {
